@@ -281,6 +281,28 @@ fn closure_shadowing() -> Option<String> {
     }
 }
 
+/// C09: dumping an authorizer built from a token whose check carries a malformed operation sequence
+fn dump_malformed_expression() -> Option<String> {
+    use biscuit_auth::builder::{Binary, Check, CheckKind, Expression, Op, Predicate, Rule, Term};
+    let root = KeyPair::new();
+    let rule = Rule::new(
+        Predicate::new("query".to_string(), Vec::<Term>::new()),
+        vec![Predicate::new("f".to_string(), vec![Term::Integer(1)])],
+        vec![Expression { ops: vec![Op::Binary(Binary::Add)] }],   // a binary operator with no operands
+        vec![],
+    );
+    let check = Check { queries: vec![rule], kind: CheckKind::One };
+    let t = match Biscuit::builder().fact("f(1)").unwrap().check(check) { Ok(b) => b.build(&root).unwrap(), Err(_) => return None };
+    let bytes = t.to_vec().unwrap();
+    let t2 = match Biscuit::from(&bytes, root.public()) { Ok(t) => t, Err(_) => return None };
+    let mut a = match AuthorizerBuilder::new().policy("allow if true").unwrap().build(&t2) { Ok(a) => a, Err(_) => return None };
+    let _ = quiet(|| a.authorize().map(|_| ()));
+    match quiet(|| a.dump_code()) {
+        Err(p) => Some(format!("token with the expression [Binary(Add)]: Biscuit::from is Ok, AuthorizerBuilder::build is Ok, Authorizer::dump_code() panics: {}", p)),
+        Ok(_) => None,
+    }
+}
+
 /// run `case` in a child process; report how it ended (a panic inside an extern "C" function aborts the process)
 fn in_child(case: &str) -> Result<String, String> {
     let exe = std::env::current_exe().unwrap();
@@ -410,6 +432,7 @@ fn main() {
         "snapshot_iteration_underflow" => snapshot_iteration_underflow(),
         "snapshot_iteration_overflow" => snapshot_iteration_overflow(),
         "closure_shadowing" => closure_shadowing(),
+        "dump_malformed_expression" => dump_malformed_expression(),
         "facts_over_budget_at_start" => facts_over_budget_at_start(),
         _ => { eprintln!("unknown case {}", case); std::process::exit(2) }
     };
